@@ -31,12 +31,13 @@ VARIABLES pc,         \* client program counter
           bTx, bCopy, bData, bad, dirty,   \* pooler belief per conn
           tTx, tCopy, tUnread, tDirt, tPend, last, \* backend truth per conn (tPend: SET inside the open transaction)
           cmap,       \* cancel map: client -> conn
-          viol        \* monitor: set of violation records
+          viol,       \* monitor: set of violation records
+          late        \* (deviation only) cancel requests the pooler keeps retrying: <<client, conn looked up>>
 
 cvars == <<pc, held, pend, nmsg, vanished>>
 bvars == <<alive, idle, bTx, bCopy, bData, bad, dirty>>
 tvars == <<tTx, tCopy, tUnread, tDirt, tPend, last>>
-vars  == <<cvars, bvars, tvars, cmap, viol>>
+vars  == <<cvars, bvars, tvars, cmap, viol, late>>
 
 \* Client messages (abstract kinds).
 \*   begin/commit/stmt/fail : statements; fail raises an error on the server
@@ -66,7 +67,7 @@ Init ==
   /\ tPend = [s \in Conns |-> NONE]
   /\ last = [s \in Conns |-> NONE]
   /\ cmap = [c \in Clients |-> NONE]
-  /\ viol = {}
+  /\ viol = {} /\ late = {}
 
 NAlive == Cardinality({s \in Conns : alive[s]})
 
@@ -102,7 +103,11 @@ Checkout(c, s) ==
         /\ UNCHANGED <<alive, bTx, bCopy, bData, bad, dirty, tvars>>
      \/ /\ ~alive[s] /\ (\A t \in Conns : ~(alive[t] /\ idle[t])) /\ NAlive < PoolSize
         /\ Fresh(s)
-  /\ held' = [held EXCEPT ![c] = s] /\ cmap' = [cmap EXCEPT ![c] = s]
+  /\ held' = [held EXCEPT ![c] = s]
+  \* (deviation claim_unmaps_previous: claim() also removes whatever entry the connection's previous user has - even when
+  \* that client is using another connection by now)
+  /\ cmap' = [x \in Clients |-> IF x = c THEN s
+                                ELSE IF "claim_unmaps_previous" \in Dev /\ x = last[s] THEN NONE ELSE cmap[x]]
   /\ pc' = [pc EXCEPT ![c] = "fwd"]
   /\ UNCHANGED <<vanished, pend, nmsg, viol>>
 
@@ -348,6 +353,23 @@ Cancel(c) ==
              THEN viol \cup {<<"cancel_wrong_target", cmap[c], held[c]>>} ELSE viol
   /\ UNCHANGED <<cvars, bvars, tvars, cmap>>
 
+\* A CancelRequest carrying c's key arrives while the server does not accept connections (its listener is down for a
+\* moment: restart, full backlog).  Server::cancel's connect is refused and the request is dropped: a cancel request is
+\* about what the client is running NOW.  (deviation cancel_retried_later: the pooler keeps the looked-up target and
+\* tries again later.)
+CancelDown(c) ==
+  /\ pc[c] # "off"
+  /\ late' = IF "cancel_retried_later" \in Dev /\ cmap[c] # NONE THEN late \cup {<<c, cmap[c]>>} ELSE late
+  /\ UNCHANGED <<cvars, bvars, tvars, cmap, viol>>
+
+\* (deviation only) a retried request gets through: it reaches the connection that was looked up when it was made.
+\* Monitor: the requester must still hold it.
+DeliverLate ==
+  \E p \in late :
+    /\ late' = late \ {p}
+    /\ viol' = IF held[p[1]] # p[2] THEN viol \cup {<<"cancel_after_release", p[2], held[p[1]]>>} ELSE viol
+    /\ UNCHANGED <<cvars, bvars, tvars, cmap>>
+
 ClientNext ==
   \E c \in Clients :
      \/ Connect(c) \/ Leave(c) \/ Cancel(c)
@@ -358,7 +380,8 @@ ClientNext ==
      \/ Vanish(c) \/ ForwardVanished(c)
      \/ (\E k \in Kinds : SendFirstGone(c, k) \/ NextMsgGone(c, k))
 
-Next == ClientNext \/ (\E s \in Conns : Reap(s)) \/ ServerRestart
+Next == \/ (ClientNext \/ (\E s \in Conns : Reap(s)) \/ ServerRestart) /\ late' = late
+        \/ (\E c \in Clients : CancelDown(c)) \/ DeliverLate
 
 Spec == Init /\ [][Next]_vars
 
@@ -399,6 +422,9 @@ HoldsOnlyInTx ==
 \* C10: the cancel map names exactly the connection a client holds.
 MapSound == \A c \in Clients : cmap[c] # NONE => held[c] = cmap[c]
 
+\* C10: a client that is inside a transaction can be cancelled - its entry names the connection it holds.
+MapComplete == \A c \in Clients : pc[c] = "intx" /\ held[c] # NONE => cmap[c] = held[c]
+
 \* Belief never claims "idle and clean" while the session is inside a transaction.
 BeliefSound ==
   \A s \in Conns : alive[s] /\ idle[s] => ~bTx[s]
@@ -406,7 +432,8 @@ BeliefSound ==
 Deviations == {"putback_reuses_unclean", "copydone_single_recv", "copydone_no_copy_check", "set_in_tx_not_marked",
                "reset_before_rollback", "timeout_keeps_connection", "failed_tx_counts_as_idle", "prepare_not_marked",
                "session_mode_releases", "no_rollback_at_checkin", "no_reset_at_checkin", "map_kept_after_release",
-               "early_return_leaks_guard", "error_keeps_copy_mode", "timeout_marks_bad_after_write", "local_batch_keeps_server", "reset_clears_dirty", "cleanup_in_copy_reuses"}
+               "early_return_leaks_guard", "error_keeps_copy_mode", "timeout_marks_bad_after_write", "local_batch_keeps_server", "reset_clears_dirty", "cleanup_in_copy_reuses",
+               "cancel_retried_later", "claim_unmaps_previous"}
 
 Quiescent == \A c \in Clients : pc[c] \in {"off", "idle", "gone"}
 
